@@ -463,6 +463,9 @@ struct EntStore {
     std::map<std::string, std::string> ents;     // sysid (UTF-8/ASCII) -> bytes
     std::vector<std::string> log;                // "R\t<sysid>\t<base>" per resolver call
     bool nullForUnknown = true;                  // true: unknown ids fall through to default resolution
+    bool total = false;                          // true (fuzz targets): every id is answered from memory (by extension, else "*", else empty)
+    std::map<std::string, std::string> byExt;    // ".dtd" / ".xsd" / "*" -> bytes
+    std::string empty;
     void load(const Req& r) {
         for (Req::const_iterator it = r.begin(); it != r.end(); ++it)
             if (it->first.compare(0, 4, "ent:") == 0) ents[it->first.substr(4)] = it->second;
@@ -476,6 +479,12 @@ struct EntStore {
             std::string j = base.substr(0, sl + 1) + sys;
             it = ents.find(j);
             if (it != ents.end()) return &it->second;
+        }
+        if (total) {
+            size_t dot = sys.rfind('.');
+            if (dot != std::string::npos) { it = byExt.find(sys.substr(dot)); if (it != byExt.end()) return &it->second; }
+            it = byExt.find("*"); if (it != byExt.end()) return &it->second;
+            return &empty;
         }
         return 0;
     }
@@ -709,7 +718,7 @@ static std::string writeScratch(const std::string& name, const std::string& data
     return p;
 }
 
-struct ParseOut { std::string ced; long nEvents = 0, nChars = 0, nErr = 0, nFatal = 0; long reads = 0; std::vector<std::string> rlog; };
+struct ParseOut { std::string ced; long nEvents = 0, nChars = 0, nErr = 0, nFatal = 0; long reads = 0; long parserErrCount = -1; std::vector<std::string> rlog; };
 
 static void runParse(const Req& r, ParseOut& po, XMLGrammarPool* pool = 0, MemoryManager* mm = XMLPlatformUtils::fgMemoryManager) {
     std::string api = get(r, "api", "sax2");
@@ -719,6 +728,7 @@ static void runParse(const Req& r, ParseOut& po, XMLGrammarPool* pool = 0, Memor
     std::vector<size_t> plan = parsePlan(get(r, "chunks"));
     Dump d; d.withLoc = geti(r, "loc", 0) != 0; d.throwAt = geti(r, "throwat", -1);
     EntStore st; st.load(r);
+    if (geti(r, "totalres", 0)) { st.total = true; for (Req::const_iterator it = r.begin(); it != r.end(); ++it) if (it->first.compare(0, 4, "ext:") == 0) st.byExt[it->first.substr(4)] = it->second; }
     MemResolver res(st);
     SecurityManager sm; long lim = f.i("secmgr", -1); if (lim >= 0) sm.setEntityExpansionLimit((XMLSize_t)lim);
     SecurityManager* smp = lim >= 0 ? &sm : 0;
@@ -734,7 +744,7 @@ static void runParse(const Req& r, ParseOut& po, XMLGrammarPool* pool = 0, Memor
     InputSource& src = srcOwned ? *srcOwned : (InputSource&)csrc;
     struct SrcJan { InputSource* p; ~SrcJan() { delete p; } } srcJan = { srcOwned };
     if (f.has("forceenc")) src.setEncoding(X(f.s("forceenc")).c());
-    bool useRes = !st.ents.empty() || f.b("resolver", false);
+    bool useRes = !st.ents.empty() || st.total || f.b("resolver", false);
     long steps = geti(r, "steps", -1);   // progressive: abandon after this many parseNext calls (-1: run to end)
     try {
         if (api == "sax1" || api == "psax1") {
@@ -743,12 +753,14 @@ static void runParse(const Req& r, ParseOut& po, XMLGrammarPool* pool = 0, Memor
             if (useRes) p.setXMLEntityResolver(&res);
             if (api == "sax1") p.parse(src);
             else { XMLPScanToken tok; if (p.parseFirst(src, tok)) { long k = 0; while ((steps < 0 || k < steps) && p.parseNext(tok)) k++; if (steps >= 0) p.parseReset(tok); } }
+            po.parserErrCount = (long)p.getErrorCount();
         } else if (api == "sax2" || api == "psax2") {
             CapSAX2 p(mm, pool); p.xd = &d; configSAX2(p, f, smp);
             Sax2Dump h(d); p.setContentHandler(&h); p.setLexicalHandler(&h); p.setDeclarationHandler(&h); p.setDTDHandler(&h); p.setErrorHandler(&h);
             if (useRes) p.setXMLEntityResolver(&res);
             if (api == "sax2") p.parse(src);
             else { XMLPScanToken tok; if (p.parseFirst(src, tok)) { long k = 0; while ((steps < 0 || k < steps) && p.parseNext(tok)) k++; if (steps >= 0) p.parseReset(tok); } }
+            po.parserErrCount = (long)p.getErrorCount();
         } else if (api == "dom" || api == "pdom") {
             CapDOMParser p(0, mm, pool); p.xd = &d; configDOM(p, f, smp);
             Sax1Dump eh(d); p.setErrorHandler(&eh);
@@ -756,6 +768,7 @@ static void runParse(const Req& r, ParseOut& po, XMLGrammarPool* pool = 0, Memor
             bool done = true;
             if (api == "dom") p.parse(src);
             else { XMLPScanToken tok; if (p.parseFirst(src, tok)) { long k = 0; while ((steps < 0 || k < steps) && p.parseNext(tok)) k++; if (steps >= 0) { p.parseReset(tok); done = false; } } }
+            po.parserErrCount = (long)p.getErrorCount();
             DOMDocument* dd = p.getDocument();
             DomDumpOpts o; o.typeInfo = f.b("psvi", false); o.ids = f.b("dumpids", false);
             if (dd && done) dumpDomNode(d, dd, o);
